@@ -324,6 +324,27 @@ func c06Datagram(cs *core.Case, fs []frame, source string) {
 	}
 	cut := off + 1 + r.Intn(len(fs[fi].b)-1)
 	c06MustFail(cs, "all-or-nothing/truncated", in[:cut], fmt.Sprintf("cut at %d inside frame %d of [%s]", cut, fi, trace()))
+	// short datagrams: every cut offset strictly inside a frame, and the malformed frame at every position
+	if len(in) <= 96 {
+		bounds := map[int]bool{0: true}
+		o := 0
+		for _, f := range fs {
+			o += len(f.b)
+			bounds[o] = true
+		}
+		for c := 1; c < len(in); c++ {
+			if !bounds[c] {
+				c06MustFail(cs, "all-or-nothing/truncated", in[:c], fmt.Sprintf("cut at %d (every offset inside a frame) of [%s]", c, trace()))
+			}
+		}
+		for p := 0; p <= len(fs); p++ {
+			var with []byte
+			with = append(with, concatFrames(fs[:p])...)
+			with = append(with, bad...)
+			with = append(with, concatFrames(fs[p:])...)
+			c06MustFail(cs, "all-or-nothing/malformed-frame", with, fmt.Sprintf("malformed frame %s at every position: before frame %d of [%s]", mon.Hex(bad, 64), p, trace()))
+		}
+	}
 	// surplus octets
 	c06MustFail(cs, "all-or-nothing/surplus", append(cloneBytes(in), surplus(r)...), "surplus octets appended to ["+trace()+"]")
 }
